@@ -76,13 +76,13 @@ func (t *topicsState) Set(message *packet.Publish) error {
 		Publish:   message,
 		LastAdded: clock(),
 	}
-	err := t.set(message.Topic, msg)
-	if err != nil {
-		return err
-	}
 	buf, err := proto.Marshal(&api.StateBroadcastEvent{
 		RetainedMessages: []*api.RetainedMessage{msg},
 	})
+	if err != nil {
+		return err
+	}
+	err = t.set(message.Topic, msg)
 	if err != nil {
 		return err
 	}
@@ -114,13 +114,13 @@ func (t *topicsState) Delete(topic []byte) error {
 		},
 		LastDeleted: clock(),
 	}
-	err := t.set(topic, msg)
-	if err != nil {
-		return err
-	}
 	buf, err := proto.Marshal(&api.StateBroadcastEvent{
 		RetainedMessages: []*api.RetainedMessage{msg},
 	})
+	if err != nil {
+		return err
+	}
+	err = t.set(topic, msg)
 	if err != nil {
 		return err
 	}
